@@ -259,6 +259,39 @@ pub fn typed_index_program() -> Prog {
     Prog { main, ..Default::default() }
 }
 
+/// Subscripts that are variables first used in the subscript itself (implicit variables, value 0), in every
+/// kind of element path: plain element, element of an array of records, nested record, fixed-length string.
+pub fn implicit_index_program() -> Prog {
+    let mut b = B::new();
+    let shape = Shape { dims: vec![(0, 3)], explicit: false };
+    let mut main = vec![
+        dim_stmt(&mut b, "A", &shape, Elem::Scalar(Ty::Int)),
+        dim_stmt(&mut b, "R", &shape, Elem::Rec),
+        dim_stmt(&mut b, "F", &shape, Elem::Fix3),
+    ];
+    let fld = |base: Expr, f: &str| Expr::Field(Box::new(base), f.to_string());
+    // targets whose subscript is a variable never seen before
+    main.push(b.assign(Expr::Index("A%".into(), vec![var("I1")]), num(5)));
+    main.push(b.assign(fld(Expr::Index("R".into(), vec![var("I2")]), "N"), num(6)));
+    main.push(b.assign(fld(fld(Expr::Index("R".into(), vec![var("I3")]), "I"), "P"), num(7)));
+    main.push(b.assign(Expr::Index("F".into(), vec![var("I4%")]), st("ab")));
+    main.push(b.print(vec![
+        Expr::Index("A%".into(), vec![num(0)]),
+        fld(Expr::Index("R".into(), vec![num(0)]), "N"),
+        fld(fld(Expr::Index("R".into(), vec![num(0)]), "I"), "P"),
+        st("["),
+        Expr::Index("F".into(), vec![num(0)]),
+        st("]"),
+    ]));
+    // reads whose subscript is a variable never seen before, then the same variables assigned
+    main.push(b.print(vec![Expr::Index("A%".into(), vec![var("J1")]), fld(Expr::Index("R".into(), vec![var("J2&")]), "N"), var("J1"), var("J2&")]));
+    main.push(b.assign(var("I2"), num(2)));
+    main.push(b.assign(fld(Expr::Index("R".into(), vec![var("I2")]), "N"), num(8)));
+    main.push(b.assign(fld(Expr::Index("R".into(), vec![bin(BinOp::Add, var("I2"), var("K9"))]), "S"), st("xy")));
+    main.push(b.print(vec![fld(Expr::Index("R".into(), vec![num(2)]), "N"), st("["), fld(Expr::Index("R".into(), vec![num(2)]), "S"), st("]"), var("K9")]));
+    Prog { types: rec_types(), main, ..Default::default() }
+}
+
 /// (v) fixed-length strings: STRING * n as variable, record field and array element,
 /// assigned strings of length 0..5 through several routes.
 pub fn fixed_string_programs() -> Vec<(Prog, String)> {
